@@ -56,8 +56,11 @@ class CodeGenerator:
             else:
                 module_compiled_filename = module_name + ".pyc"
 
-            if os.path.exists(module_compiled_filename):
+            try:
                 os.remove(module_compiled_filename)
+            except OSError:
+                # not there, or removed by somebody else in the meantime
+                pass
 
             # creates folder to host our generated code
             os.makedirs(folder, exist_ok=True)
@@ -99,4 +102,3 @@ class CodeGenerator:
             self.pkt_class.unpack_impl == Packet.unpack_impl
         ):
             self.pkt_class.unpack_impl = module.unpack_impl
-
